@@ -176,7 +176,9 @@ def exhaustive(tier):
     # a value EQUAL to the declared default, assigned / loaded successfully, makes the field user-defined all the same
     for kind in ("str", "int", "bool", "list", "typed-list", "dict", "float"):
         for place in ("root", "nested"):
-            for route in ("setattr", "setitem", "ctor", "load_tree", "loads-json", "loads-yaml"):
+            for route in ("setattr", "setitem", "ctor", "load_tree", "loads-json", "loads-yaml", "assign-own-value", "iadd-own-value"):
+                if route == "iadd-own-value" and kind not in ("list", "typed-list"):
+                    continue
                 yield {"mode": "same-as-default", "kind": kind, "place": place, "route": route}
 
 
@@ -217,6 +219,10 @@ def _same_as_default_case(case, R):
             owner = cfg
         elif route == "load_tree":
             cfg.load_tree(tree)
+        elif route == "assign-own-value":
+            owner.f = owner.f          # the very object the configuration holds is assigned back: an assignment all the same
+        elif route == "iadd-own-value":
+            owner.f += []              # reads the held list, extends it in place, assigns it back
         else:
             fmt = route.split("-")[1]
             cfg.loads(cc.ConfigFormat.get(fmt).dumps(cfg, tree), fmt)
